@@ -34,7 +34,7 @@ class Ob:
     def __init__(self, name, harness, units=(), models=(), defines=None, unit_defines=None,
                  unit_includes=(), remove=(), unwind=None, unwindset=(), restrict=(), flags=(),
                  timeout=300, mem_gb=6, kfs=(), kf_cover=True, tier='quick', note='', leak=False,
-                 restrict_by=(), kf_only=False, unwind_violation=False, statement='', bounds='', expect_covers=True, solver=None,
+                 restrict_by=(), unwind_by=(), kf_only=False, unwind_violation=False, statement='', bounds='', expect_covers=True, solver=None,
                  object_bits=10, malloc_may_fail=False, native_libs=('-lz',), cost=None):
         self.name = name; self.harness = harness; self.units = list(units); self.models = list(models)
         self.defines = dict(defines or {}); self.unit_defines = dict(unit_defines or {})
@@ -42,7 +42,7 @@ class Ob:
         self.unwind = unwind; self.unwindset = list(unwindset); self.restrict = list(restrict)
         self.flags = list(flags); self.timeout = timeout; self.mem_gb = mem_gb; self.kfs = list(kfs)
         self.kf_cover = kf_cover; self.tier = tier; self.note = note; self.leak = leak
-        self.restrict_by = list(restrict_by); self.kf_only = kf_only; self.unwind_violation = unwind_violation; self.statement = statement; self.bounds = bounds
+        self.restrict_by = list(restrict_by); self.unwind_by = list(unwind_by); self.kf_only = kf_only; self.unwind_violation = unwind_violation; self.statement = statement; self.bounds = bounds
         self.expect_covers = expect_covers; self.solver = solver; self.object_bits = object_bits
         self.malloc_may_fail = malloc_may_fail; self.native_libs = list(native_libs)
         self.cost = cost if cost is not None else timeout
@@ -198,12 +198,28 @@ def build_native(ob, extra_defs):
         raise BuildError('native link failed: %s\n%s%s' % (' '.join(cmd), o[-3000:], e[-3000:]))
     return _once(key, build)
 
+_loops_cache = {}
+def loop_bounds(ob, gb):
+    """per-loop bounds by pattern: loop numbering shifts whenever a function gains or loses a loop, so the names are read from
+    the binary on every run (cbmc --show-loops) and matched against (regex, bound) pairs; first match wins"""
+    if not ob.unwind_by: return []
+    if gb not in _loops_cache:
+        rc, o, e, _, _ = sh(['cbmc', gb, '--function', 'harness', '--drop-unused-functions', '--show-loops'], timeout=300, mem_gb=8)
+        _loops_cache[gb] = re.findall(r'^Loop (\S+):', o, re.M)
+    out = []
+    for name in _loops_cache[gb]:
+        for pat, bound in ob.unwind_by:
+            if re.search(pat, name):
+                out.append('%s:%d' % (name, bound)); break
+    return out
+
 def cbmc_cmd(ob, gb, trace_prop=None):
     cmd = ['cbmc', gb, '--function', 'harness', '--unwinding-assertions', '--drop-unused-functions',
            '--object-bits', str(ob.object_bits), '--json-ui', '--verbosity', '6']
     if not ob.malloc_may_fail: cmd.append('--no-malloc-may-fail')
     if ob.unwind is not None: cmd += ['--unwind', str(ob.unwind)]
-    if ob.unwindset: cmd += ['--unwindset', ','.join(ob.unwindset)]
+    us = list(ob.unwindset) + loop_bounds(ob, gb)
+    if us: cmd += ['--unwindset', ','.join(us)]
     if ob.leak: cmd.append('--memory-leak-check')
     if ob.solver == 'kissat': cmd += ['--external-sat-solver', 'kissat']
     elif ob.solver == 'cadical': cmd += ['--sat-solver', 'cadical']
